@@ -6,6 +6,7 @@
   `xtalk` e2e runs with tagged payloads; no separate theorem is claimed for it).
 -/
 import SA.Proofs.Accept
+import SA.Gen.PkgVars
 namespace SA.Accept
 
 /-- **independent_if_spawned**: when the per-stream handler runs in its own goroutine, then from
@@ -96,3 +97,16 @@ end SA.Accept
 #print axioms SA.Accept.C02_stream_handler_spawned
 #print axioms SA.Accept.C02_receive_buffer_as_quantified
 #print axioms SA.Accept.C02_witness_hol
+
+namespace SA.PkgState
+/-- **no_hidden_process_state**: the models of this property are functions of their arguments and of the objects they are
+    handed; the packages they model keep no package-level variables besides these (regenerated inventory: error
+    sentinels, tables, compiled patterns, the two session time-outs).  A new package-level variable — a counter, a cache, a
+    scratch buffer, a shared map, a registry — would make later calls depend on earlier ones, or concurrent calls on each
+    other, outside anything a per-call comparison of model and code can see. -/
+theorem C02_no_hidden_process_state :
+    Gen.pkgVarNames_server = ["ChannelRegex"] ∧
+    Gen.pkgVarNames_upstream = [] := by decide
+end SA.PkgState
+
+#print axioms SA.PkgState.C02_no_hidden_process_state
